@@ -6,15 +6,227 @@ import BHS.Model.AddrMgr
 namespace BHS.Proofs.AddrMgr
 open BHS.Model.AddrMgr
 
+abbrev Idx := List (Nat × KA)
+abbrev Pairs := List (Nat × Nat)
+
+def Keys (idx : Idx) : Prop := idx.Pairwise (fun x y => x.1 ≠ y.1)
+
+/-! ### the index as a map -/
+
+theorem findIdx_mem {idx : Idx} {a : Nat} {ka : KA} (h : (idx.find? (fun e => e.1 == a)).map (·.2) = some ka) : (a, ka) ∈ idx := by
+  cases hf : idx.find? (fun e => e.1 == a) with
+  | none => rw [hf] at h; cases h
+  | some e =>
+    rw [hf] at h
+    have h1 := List.find?_some hf
+    have h2 := List.mem_of_find?_eq_some hf
+    simp at h h1
+    rcases e with ⟨k, v⟩
+    simp at h h1
+    subst h; subst h1
+    exact h2
+
+theorem mem_findIdx {idx : Idx} (hk : Keys idx) {a : Nat} {ka : KA} (h : (a, ka) ∈ idx) :
+    (idx.find? (fun e => e.1 == a)).map (·.2) = some ka := by
+  induction idx with
+  | nil => cases h
+  | cons x l ih =>
+    have hk' : (∀ y ∈ l, x.1 ≠ y.1) ∧ Keys l := by simpa [Keys, List.pairwise_cons] using hk
+    rcases List.mem_cons.1 h with e | e
+    · subst e; simp
+    · have hne : x.1 ≠ a := fun e' => hk'.1 _ e e'
+      have hb : (x.1 == a) = false := by simp [hne]
+      simp only [List.find?_cons, hb]
+      exact ih hk'.2 e
+
+theorem findIdx_none {idx : Idx} {a : Nat} (h : (idx.find? (fun e => e.1 == a)).map (·.2) = none) : ∀ e ∈ idx, e.1 ≠ a := by
+  intro e he heq
+  cases hf : idx.find? (fun e => e.1 == a) with
+  | some x => rw [hf] at h; cases h
+  | none =>
+    have := List.find?_eq_none.1 hf e he
+    simp [heq] at this
+
+theorem keys_setKA (idx : Idx) (a : Nat) (ka : KA) : (setKA idx a ka).map (·.1) = idx.map (·.1) := by
+  unfold setKA
+  induction idx with
+  | nil => rfl
+  | cons x l ih =>
+    simp only [List.map_cons, ih]
+    congr 1
+    split
+    · rename_i h; simp at h; exact h.symm
+    · rfl
+
+theorem keys_of_map {idx idx' : Idx} (h : idx'.map (·.1) = idx.map (·.1)) (hk : Keys idx) : Keys idx' := by
+  have : ∀ l : Idx, Keys l ↔ (l.map (·.1)).Pairwise (· ≠ ·) := by
+    intro l; unfold Keys; rw [List.pairwise_map]
+  rw [this] at hk ⊢
+  rw [h]; exact hk
+
+theorem mem_setKA {idx : Idx} {a : Nat} {ka : KA} {e : Nat × KA} :
+    e ∈ setKA idx a ka ↔ (e ∈ idx ∧ e.1 ≠ a) ∨ (e = (a, ka) ∧ ∃ x ∈ idx, x.1 = a) := by
+  unfold setKA
+  simp only [List.mem_map]
+  constructor
+  · rintro ⟨x, hx, rfl⟩
+    by_cases h : x.1 = a
+    · right
+      refine ⟨?_, x, hx, h⟩
+      simp [h]
+    · left
+      refine ⟨?_, ?_⟩
+      · simpa [h] using hx
+      · simp [h]
+  · rintro (⟨he, hne⟩ | ⟨rfl, x, hx, hxa⟩)
+    · exact ⟨e, he, by simp [hne]⟩
+    · exact ⟨x, hx, by simp [hxa]⟩
+
+theorem mem_delKA {idx : Idx} {a : Nat} {e : Nat × KA} : e ∈ delKA idx a ↔ e ∈ idx ∧ e.1 ≠ a := by
+  unfold delKA; simp [List.mem_filter]
+
+theorem keys_delKA {idx : Idx} (a : Nat) (hk : Keys idx) : Keys (delKA idx a) := List.Pairwise.filter _ hk
+
+theorem b2n (b : Bool) : (if b = true then 1 else 0 : Nat) = b.toNat := by cases b <;> rfl
+
+/-- replacing the value under a key changes a count by that entry only -/
+theorem countP_setKA (f : Nat × KA → Bool) : ∀ (idx : Idx) (a : Nat) (ka ka' : KA), Keys idx → (a, ka) ∈ idx →
+    (setKA idx a ka').countP f + (f (a, ka)).toNat = idx.countP f + (f (a, ka')).toNat := by
+  intro idx
+  induction idx with
+  | nil => intro a ka ka' _ h; cases h
+  | cons x l ih =>
+    intro a ka ka' hk h
+    have hk' : (∀ y ∈ l, x.1 ≠ y.1) ∧ Keys l := by simpa [Keys, List.pairwise_cons] using hk
+    rcases List.mem_cons.1 h with e | e
+    · subst e
+      have hl2 : ∀ y ∈ l, (if (y.1 == a) = true then (a, ka') else y) = y := by
+        intro y hy; have := hk'.1 y hy; simp at this; simp [Ne.symm this]
+      simp only [setKA, List.map_cons, beq_self_eq_true, ↓reduceIte, List.countP_cons]
+      rw [List.map_congr_left hl2, List.map_id']
+      cases f (a, ka) <;> cases f (a, ka') <;> simp
+    · have hne : x.1 ≠ a := fun e' => hk'.1 _ e e'
+      have := ih a ka ka' hk'.2 e
+      simp only [setKA, List.map_cons, List.countP_cons] at this ⊢
+      simp only [show (x.1 == a) = false from by simp [hne]]
+      simp only [Bool.false_eq_true, ↓reduceIte]
+      omega
+
+theorem countP_delKA (f : Nat × KA → Bool) : ∀ (idx : Idx) (a : Nat) (ka : KA), Keys idx → (a, ka) ∈ idx →
+    (delKA idx a).countP f + (f (a, ka)).toNat = idx.countP f := by
+  intro idx
+  induction idx with
+  | nil => intro a ka _ h; cases h
+  | cons x l ih =>
+    intro a ka hk h
+    have hk' : (∀ y ∈ l, x.1 ≠ y.1) ∧ Keys l := by simpa [Keys, List.pairwise_cons] using hk
+    rcases List.mem_cons.1 h with e | e
+    · subst e
+      have hl : delKA l a = l := by
+        unfold delKA
+        apply List.filter_eq_self.2
+        intro y hy; have := hk'.1 y hy; simp at this; simp [Ne.symm this]
+      have : delKA ((a, ka) :: l) a = l := by simpa [delKA] using hl
+      rw [this, List.countP_cons]
+      cases f (a, ka) <;> simp
+    · have hne : x.1 ≠ a := fun e' => hk'.1 _ e e'
+      have := ih a ka hk'.2 e
+      have hd : delKA (x :: l) a = x :: delKA l a := by simp [delKA, hne]
+      rw [hd, List.countP_cons, List.countP_cons]
+      omega
+
+/-! ### counting bucket entries of one address -/
+
+def cnt (l : Pairs) (x : Nat) : Nat := l.countP (fun p => p.2 == x)
+
+theorem cnt_append (l : Pairs) (b a x : Nat) : cnt (l ++ [(b, a)]) x = cnt l x + (if a = x then 1 else 0) := by
+  simp [cnt, List.countP_append, List.countP_cons]
+
+theorem cnt_filter_addr (l : Pairs) (a x : Nat) : cnt (l.filter (fun e => e.2 != a)) x = if x = a then 0 else cnt l x := by
+  unfold cnt
+  rw [List.countP_filter]
+  split
+  · rename_i h; subst h
+    rw [List.countP_eq_zero]; intro p _; simp
+  · rename_i h
+    apply List.countP_congr
+    intro p _
+    simp
+    intro e; rw [e]; exact h
+
+theorem cnt_pos {l : Pairs} {x : Nat} : 0 < cnt l x ↔ ∃ p ∈ l, p.2 = x := by
+  unfold cnt; rw [List.countP_pos_iff]; simp
+
+theorem cnt_remove_pair : ∀ (l : Pairs) (b a x : Nat), l.Nodup → (b, a) ∈ l →
+    cnt (l.filter (fun e => e != (b, a))) x + (if a = x then 1 else 0) = cnt l x := by
+  intro l
+  induction l with
+  | nil => intro b a x _ h; cases h
+  | cons y l ih =>
+    intro b a x hn h
+    have hn' := List.nodup_cons.1 hn
+    rcases List.mem_cons.1 h with e | e
+    · subst e
+      have hl : l.filter (fun e => e != (b, a)) = l := by
+        apply List.filter_eq_self.2
+        intro z hz
+        have : z ≠ (b, a) := fun e' => hn'.1 (e' ▸ hz)
+        simpa using this
+      simp only [List.filter_cons, bne_self_eq_false, Bool.false_eq_true, ↓reduceIte, hl, cnt, List.countP_cons]
+      by_cases hax : a = x <;> simp [hax]
+    · have hne : y ≠ (b, a) := fun e' => hn'.1 (e' ▸ e)
+      have := ih b a x hn'.2 e
+      simp only [cnt, List.filter_cons, List.countP_cons] at this ⊢
+      simp only [show (y != (b, a)) = true from by simpa using hne, ↓reduceIte, List.countP_cons]
+      omega
+
+/-! ### the invariant -/
+
 /-- the bookkeeping invariant of the address manager -/
 structure Inv (s : St) : Prop where
+  keys : Keys s.index
+  newNd : s.newB.Nodup
+  refs : ∀ e ∈ s.index, e.2.refs = (cnt s.newB e.1 : Nat)
+  newIdx : ∀ p ∈ s.newB, ∃ e ∈ s.index, e.1 = p.2
+  triedRefs : ∀ e ∈ s.index, e.2.tried = true → e.2.refs = 0
+  untried : ∀ e ∈ s.index, e.2.tried = false → 0 < e.2.refs
+  triedNd : (s.triedB.map (·.2)).Nodup
+  triedIdx : ∀ p ∈ s.triedB, ∃ e ∈ s.index, e.1 = p.2 ∧ e.2.tried = true
+  idxTried : ∀ e ∈ s.index, e.2.tried = true → ∃ p ∈ s.triedB, p.2 = e.1
   tried : s.nTried = (s.triedB.length : Nat)
   nnew : s.nNew = (s.index.countP (fun e => decide (0 < e.2.refs)) : Nat)
-  refs : ∀ e ∈ s.index, e.2.refs = (s.newB.countP (fun p => p.2 == e.1) : Nat)
-  inBucket : ∀ e ∈ s.index, (e.2.tried = true ∧ ∃ p ∈ s.triedB, p.2 = e.1) ∨ (∃ p ∈ s.newB, p.2 = e.1)
+
+/-- every indexed address is in a bucket -/
+theorem Inv.inBucket {s : St} (h : Inv s) : ∀ e ∈ s.index, (e.2.tried = true ∧ ∃ p ∈ s.triedB, p.2 = e.1) ∨ (∃ p ∈ s.newB, p.2 = e.1) := by
+  intro e he
+  cases ht : e.2.tried
+  · right
+    have h1 := h.untried e he ht
+    have h2 := h.refs e he
+    exact cnt_pos.1 (by omega)
+  · left; exact ⟨rfl, h.idxTried e he ht⟩
 
 theorem inv_init : Inv {} := by
-  constructor <;> simp
+  constructor <;> simp [Keys, cnt]
+
+/-- the invariant does not look at the ban table or the clock -/
+theorem inv_congr {s s' : St} (h : Inv s) (h1 : s'.index = s.index) (h2 : s'.newB = s.newB) (h3 : s'.triedB = s.triedB)
+    (h4 : s'.nNew = s.nNew) (h5 : s'.nTried = s.nTried) : Inv s' := by
+  constructor
+  · rw [h1]; exact h.keys
+  · rw [h2]; exact h.newNd
+  · rw [h1, h2]; exact h.refs
+  · rw [h1, h2]; exact h.newIdx
+  · rw [h1]; exact h.triedRefs
+  · rw [h1]; exact h.untried
+  · rw [h3]; exact h.triedNd
+  · rw [h1, h3]; exact h.triedIdx
+  · rw [h1, h3]; exact h.idxTried
+  · rw [h3, h5]; exact h.tried
+  · rw [h1, h4]; exact h.nnew
+
+theorem find_mem {s : St} {a : Nat} {ka : KA} (h : find s a = some ka) : (a, ka) ∈ s.index := findIdx_mem h
+theorem mem_find {s : St} (hi : Inv s) {a : Nat} {ka : KA} (h : (a, ka) ∈ s.index) : find s a = some ka := mem_findIdx hi.keys h
 
 /-- under the invariant neither search of `GetAddress` can be entered with all its buckets empty -/
 theorem get_not_hang {s : St} (h : Inv s) (coin : Bool) : getAddress s coin ≠ .hang := by
@@ -45,8 +257,517 @@ theorem get_not_hang {s : St} (h : Inv s) (coin : Bool) : getAddress s coin ≠ 
       have : s.newB ≠ [] := by
         intro en
         rw [en] at hc
-        simp at hc
+        simp [cnt] at hc
         omega
       simp [List.isEmpty_iff, this]
+
+/-! ### preservation -/
+
+theorem keys_unique {idx : Idx} (hk : Keys idx) {x y : Nat × KA} (hx : x ∈ idx) (hy : y ∈ idx) (e : x.1 = y.1) : x = y := by
+  have hf := mem_findIdx hk (a := x.1) (ka := x.2) hx
+  have hg := mem_findIdx hk (a := x.1) (ka := y.2) (by rw [e]; exact hy)
+  rw [hf] at hg
+  cases x; cases y; simp at hg e; simp [hg, e]
+
+theorem key_mem_setKA {idx : Idx} {a k : Nat} {ka : KA} : (∃ e ∈ setKA idx a ka, e.1 = k) ↔ ∃ e ∈ idx, e.1 = k := by
+  have h1 : ∀ l : Idx, (∃ e ∈ l, e.1 = k) ↔ k ∈ l.map (·.1) := by
+    intro l; simp [List.mem_map]
+  rw [h1, h1, keys_setKA]
+
+theorem inv_insertNew {s : St} {b a : Nat} {ka : KA} (hi : Inv s) (hf : find s a = some ka) (ht : ka.tried = false) :
+    Inv (insertNew s b a) := by
+  unfold insertNew
+  split
+  · exact hi
+  · rename_i hc
+    have hnc : (b, a) ∉ s.newB := by simpa using hc
+    rw [hf]
+    have hm := find_mem hf
+    have hpos := hi.untried _ hm ht
+    have hr := hi.refs _ hm
+    simp only at hpos hr
+    constructor
+    · exact keys_of_map (keys_setKA _ _ _) hi.keys
+    · simp only
+      rw [List.nodup_append]
+      exact ⟨hi.newNd, by simp, by intro x hx y hy; simp at hy; subst hy; exact fun e => hnc (e ▸ hx)⟩
+    · intro e he
+      simp only at he ⊢
+      rcases mem_setKA.1 he with ⟨h1, h2⟩ | ⟨rfl, _⟩
+      · rw [cnt_append, hi.refs e h1]
+        have : ¬ a = e.1 := fun e' => h2 e'.symm
+        simp [this]
+      · simp only [cnt_append, ↓reduceIte]
+        omega
+    · intro p hp
+      simp only at hp ⊢
+      rw [key_mem_setKA]
+      rcases List.mem_append.1 hp with h | h
+      · exact hi.newIdx p h
+      · simp at h; subst h; exact ⟨_, hm, rfl⟩
+    · intro e he hte
+      simp only at he
+      rcases mem_setKA.1 he with ⟨h1, _⟩ | ⟨rfl, _⟩
+      · exact hi.triedRefs e h1 hte
+      · simp [ht] at hte
+    · intro e he hte
+      simp only at he
+      rcases mem_setKA.1 he with ⟨h1, _⟩ | ⟨rfl, _⟩
+      · exact hi.untried e h1 hte
+      · simp only; omega
+    · exact hi.triedNd
+    · intro p hp
+      rcases hi.triedIdx p hp with ⟨e, he, h1, h2⟩
+      refine ⟨e, ?_, h1, h2⟩
+      simp only
+      refine mem_setKA.2 (Or.inl ⟨he, ?_⟩)
+      intro ea
+      have := keys_unique hi.keys he hm ea
+      rw [this] at h2
+      simp [ht] at h2
+    · intro e he hte
+      simp only at he
+      rcases mem_setKA.1 he with ⟨h1, _⟩ | ⟨rfl, _⟩
+      · exact hi.idxTried e h1 hte
+      · simp [ht] at hte
+    · exact hi.tried
+    · simp only
+      have := countP_setKA (fun e => decide (0 < e.2.refs)) s.index a ka { ka with refs := ka.refs + 1 } hi.keys hm
+      have h1 : decide (0 < ka.refs) = true := by simpa using hpos
+      have h2 : decide (0 < ka.refs + 1) = true := by simp; omega
+      simp only [h1, h2, Bool.toNat_true] at this
+      rw [hi.nnew]
+      omega
+
+theorem setKA_fresh {idx : Idx} {a : Nat} {k0 k1 : KA} (h : ∀ e ∈ idx, e.1 ≠ a) : setKA (idx ++ [(a, k0)]) a k1 = idx ++ [(a, k1)] := by
+  unfold setKA
+  rw [List.map_append]
+  congr 1
+  · have : ∀ e ∈ idx, (if (e.1 == a) = true then (a, k1) else e) = id e := by
+      intro e he; simp [h e he]
+    rw [List.map_congr_left this, List.map_id]
+  · simp
+
+/-- a so far unknown address enters the index and its first new bucket -/
+theorem inv_addFresh {s : St} {a b : Nat} (hi : Inv s) (hf : find s a = none) :
+    Inv (insertNew { s with index := s.index ++ [(a, { refs := 0, tried := false })], nNew := s.nNew + 1 } b a) := by
+  have hfresh : ∀ e ∈ s.index, e.1 ≠ a := findIdx_none hf
+  have hnone : ∀ p ∈ s.newB, p.2 ≠ a := by
+    intro p hp e
+    rcases hi.newIdx p hp with ⟨x, hx, hxa⟩
+    exact hfresh x hx (hxa.trans e)
+  have hc0 : cnt s.newB a = 0 := by
+    unfold cnt; rw [List.countP_eq_zero]; intro p hp; simpa using hnone p hp
+  have hnc : (b, a) ∉ s.newB := fun h => hnone _ h rfl
+  unfold insertNew
+  have hcont : (s.newB.contains (b, a)) = false := by simpa using hnc
+  simp only [hcont, Bool.false_eq_true, ↓reduceIte]
+  have hfind : find { s with index := s.index ++ [(a, { refs := 0, tried := false })], nNew := s.nNew + 1 } a = some { refs := 0, tried := false } := by
+    unfold find
+    simp only [List.find?_append]
+    have : s.index.find? (fun e => e.1 == a) = none := by
+      rw [List.find?_eq_none]; intro e he; simpa using hfresh e he
+    simp [this]
+  rw [hfind]
+  simp only [setKA_fresh hfresh]
+  constructor
+  · simp only [Keys]
+    rw [List.pairwise_append]
+    refine ⟨hi.keys, by simp, ?_⟩
+    intro x hx y hy
+    simp at hy; subst hy
+    exact hfresh x hx
+  · simp only
+    rw [List.nodup_append]
+    exact ⟨hi.newNd, by simp, by intro x hx y hy; simp at hy; subst hy; exact fun e => hnc (e ▸ hx)⟩
+  · intro e he
+    simp only at he ⊢
+    rcases List.mem_append.1 he with h | h
+    · rw [cnt_append, hi.refs e h]
+      have : ¬ a = e.1 := fun e' => hfresh e h e'.symm
+      simp [this]
+    · simp at h; subst h
+      simp only [cnt_append, ↓reduceIte, hc0]
+      rfl
+  · intro p hp
+    simp only at hp ⊢
+    rcases List.mem_append.1 hp with h | h
+    · rcases hi.newIdx p h with ⟨x, hx, hxa⟩
+      exact ⟨x, List.mem_append.2 (Or.inl hx), hxa⟩
+    · simp at h; subst h
+      exact ⟨_, List.mem_append.2 (Or.inr (List.mem_singleton.2 rfl)), rfl⟩
+  · intro e he hte
+    simp only at he
+    rcases List.mem_append.1 he with h | h
+    · exact hi.triedRefs e h hte
+    · simp at h; subst h; simp at hte
+  · intro e he hte
+    simp only at he
+    rcases List.mem_append.1 he with h | h
+    · exact hi.untried e h hte
+    · simp at h; subst h; simp
+  · exact hi.triedNd
+  · intro p hp
+    rcases hi.triedIdx p hp with ⟨e, he, h1, h2⟩
+    exact ⟨e, List.mem_append.2 (Or.inl he), h1, h2⟩
+  · intro e he hte
+    simp only at he
+    rcases List.mem_append.1 he with h | h
+    · exact hi.idxTried e h hte
+    · simp at h; subst h; simp at hte
+  · exact hi.tried
+  · simp only [List.countP_append, List.countP_cons, List.countP_nil]
+    rw [hi.nnew]
+    simp
+
+theorem inv_add (c : Cfg) {s : St} (a b : Nat) (dice : Bool) (hi : Inv s) : Inv (add c s a b dice) := by
+  unfold add
+  split
+  · exact hi
+  · have h0 : Inv { s with banned := s.banned.filter (fun e => e.1 != a) } := inv_congr hi rfl rfl rfl rfl rfl
+    simp only
+    split
+    · rename_i ka hf
+      split
+      · exact h0
+      · rename_i ht
+        split
+        · exact h0
+        · split
+          · exact inv_insertNew h0 hf (by simpa using ht)
+          · exact h0
+    · rename_i hf
+      exact inv_addFresh h0 hf
+
+theorem inv_good {s : St} (a t : Nat) (hi : Inv s) : Inv (good s a t) := by
+  unfold good
+  split
+  · exact hi
+  · rename_i ka hf
+    split
+    · exact hi
+    · rename_i ht
+      have ht' : ka.tried = false := by simpa using ht
+      have hm := find_mem hf
+      have hpos := hi.untried _ hm ht'
+      have hr := hi.refs _ hm
+      simp only at hpos hr
+      have hk0 : ¬ ((s.newB.countP (fun e => e.2 == a) : Nat) : Int) = 0 := by
+        have : cnt s.newB a = s.newB.countP (fun e => e.2 == a) := rfl
+        omega
+      simp only [hk0, ↓reduceIte]
+      have hrefs0 : ka.refs - ((s.newB.countP (fun e => e.2 == a) : Nat) : Int) = 0 := by
+        have : cnt s.newB a = s.newB.countP (fun e => e.2 == a) := rfl
+        omega
+      have hsetset : ∀ (k1 k2 : KA), setKA (setKA s.index a k1) a k2 = setKA s.index a k2 := by
+        intro k1 k2
+        unfold setKA
+        rw [List.map_map]
+        apply List.map_congr_left
+        intro e _
+        by_cases h : e.1 = a <;> simp [h]
+      simp only [hsetset, hrefs0]
+      have hnotTried : ∀ p ∈ s.triedB, p.2 ≠ a := by
+        intro p hp e
+        rcases hi.triedIdx p hp with ⟨x, hx, h1, h2⟩
+        have := keys_unique hi.keys hx hm (h1.trans e)
+        rw [this] at h2
+        simp [ht'] at h2
+      constructor
+      · exact keys_of_map (keys_setKA _ _ _) hi.keys
+      · exact hi.newNd.filter _
+      · intro e he
+        simp only at he ⊢
+        rw [cnt_filter_addr]
+        rcases mem_setKA.1 he with ⟨h1, h2⟩ | ⟨rfl, _⟩
+        · simp [h2, hi.refs e h1]
+        · simp
+      · intro p hp
+        simp only at hp ⊢
+        rw [key_mem_setKA]
+        exact hi.newIdx p (List.mem_filter.1 hp).1
+      · intro e he hte
+        simp only at he
+        rcases mem_setKA.1 he with ⟨h1, _⟩ | ⟨rfl, _⟩
+        · exact hi.triedRefs e h1 hte
+        · rfl
+      · intro e he hte
+        simp only at he
+        rcases mem_setKA.1 he with ⟨h1, _⟩ | ⟨rfl, _⟩
+        · exact hi.untried e h1 hte
+        · simp at hte
+      · simp only [List.map_append, List.map_cons, List.map_nil]
+        rw [List.nodup_append]
+        refine ⟨hi.triedNd, by simp, ?_⟩
+        intro x hx y hy
+        simp at hy; subst hy
+        rcases List.mem_map.1 hx with ⟨p, hp, rfl⟩
+        exact hnotTried p hp
+      · intro p hp
+        simp only at hp ⊢
+        rcases List.mem_append.1 hp with h | h
+        · rcases hi.triedIdx p h with ⟨e, he, h1, h2⟩
+          refine ⟨e, mem_setKA.2 (Or.inl ⟨he, ?_⟩), h1, h2⟩
+          rw [h1]; exact hnotTried p h
+        · simp at h; subst h
+          exact ⟨_, mem_setKA.2 (Or.inr ⟨rfl, _, hm, rfl⟩), rfl, rfl⟩
+      · intro e he hte
+        simp only at he ⊢
+        rcases mem_setKA.1 he with ⟨h1, _⟩ | ⟨rfl, _⟩
+        · rcases hi.idxTried e h1 hte with ⟨p, hp, hpe⟩
+          exact ⟨p, List.mem_append.2 (Or.inl hp), hpe⟩
+        · exact ⟨(t, a), List.mem_append.2 (Or.inr (List.mem_singleton.2 rfl)), rfl⟩
+      · simp only [List.length_append, List.length_cons, List.length_nil]
+        rw [hi.tried]; omega
+      · simp only
+        have := countP_setKA (fun e => decide (0 < e.2.refs)) s.index a ka { refs := 0, tried := true } hi.keys hm
+        have h1 : decide (0 < ka.refs) = true := by simpa using hpos
+        simp only [h1, Bool.toNat_true] at this
+        simp at this
+        rw [hi.nnew]
+        omega
+
+theorem mem_eraseFirst_of_ne {l : Pairs} {a : Nat} {p : Nat × Nat} (hp : p ∈ l) (hne : p.2 ≠ a) : p ∈ eraseFirst l a := by
+  unfold eraseFirst
+  rw [List.mem_eraseP_of_neg (by simpa using hne)]
+  exact hp
+
+/-- `removeAddrFromTried` of today's code -/
+theorem inv_removeTried {s : St} (a : Nat) (hi : Inv s) : Inv (removeTried true s a) := by
+  unfold removeTried
+  split
+  · rename_i hany
+    simp only [↓reduceIte]
+    rcases List.any_eq_true.1 hany with ⟨p0, hp0, hp0a⟩
+    have hp0a' : p0.2 = a := by simpa using hp0a
+    rcases hi.triedIdx p0 hp0 with ⟨e0, he0, he0a, he0t⟩
+    have he0key : e0.1 = a := he0a.trans hp0a'
+    have he0refs := hi.triedRefs e0 he0 he0t
+    have hsub : ∀ p ∈ eraseFirst s.triedB a, p ∈ s.triedB := fun p hp => List.mem_of_mem_eraseP hp
+    -- after the removal no tried entry carries the address any more
+    have hgone : ∀ p ∈ eraseFirst s.triedB a, p.2 ≠ a := by
+      have : ∀ (l : Pairs), (l.map (·.2)).Nodup → ∀ p ∈ eraseFirst l a, p.2 ≠ a := by
+        intro l
+        induction l with
+        | nil => intro _ p hp; cases hp
+        | cons x l ih =>
+          intro hn p hp
+          have hn' : x.2 ∉ l.map (·.2) ∧ (l.map (·.2)).Nodup := by
+            rw [List.map_cons] at hn
+            exact List.nodup_cons.1 hn
+          unfold eraseFirst at hp
+          by_cases hx : x.2 = a
+          · rw [List.eraseP_cons_of_pos (by simpa using hx)] at hp
+            intro e
+            exact hn'.1 (List.mem_map.2 ⟨p, hp, e.trans hx.symm⟩)
+          · rw [List.eraseP_cons_of_neg (by simpa using hx)] at hp
+            rcases List.mem_cons.1 hp with h | h
+            · rw [h]; exact hx
+            · exact ih hn'.2 p h
+      exact this s.triedB hi.triedNd
+    have hnoNew : ∀ p ∈ s.newB, p.2 ≠ a := by
+      intro p hp e
+      have h1 := hi.refs e0 he0
+      have : 0 < cnt s.newB e0.1 := cnt_pos.2 ⟨p, hp, by rw [he0key]; exact e⟩
+      omega
+    constructor
+    · exact keys_delKA a hi.keys
+    · exact hi.newNd
+    · intro e he
+      exact hi.refs e (mem_delKA.1 he).1
+    · intro p hp
+      rcases hi.newIdx p hp with ⟨e, he, hea⟩
+      exact ⟨e, mem_delKA.2 ⟨he, by rw [hea]; exact hnoNew p hp⟩, hea⟩
+    · intro e he
+      exact hi.triedRefs e (mem_delKA.1 he).1
+    · intro e he
+      exact hi.untried e (mem_delKA.1 he).1
+    · simp only
+      exact List.Nodup.sublist (List.Sublist.map _ (List.eraseP_sublist)) hi.triedNd
+    · intro p hp
+      rcases hi.triedIdx p (hsub p hp) with ⟨e, he, h1, h2⟩
+      exact ⟨e, mem_delKA.2 ⟨he, by rw [h1]; exact hgone p hp⟩, h1, h2⟩
+    · intro e he hte
+      have hm := mem_delKA.1 he
+      rcases hi.idxTried e hm.1 hte with ⟨p, hp, hpe⟩
+      exact ⟨p, mem_eraseFirst_of_ne hp (by rw [hpe]; exact hm.2), hpe⟩
+    · simp only
+      have hlen : (eraseFirst s.triedB a).length + 1 = s.triedB.length := by
+        unfold eraseFirst
+        rw [List.length_eraseP_of_mem hp0 hp0a]
+        have := List.length_pos_of_mem hp0
+        omega
+      rw [hi.tried]; omega
+    · simp only
+      have := countP_delKA (fun e => decide (0 < e.2.refs)) s.index a e0.2 hi.keys (by rw [← he0key]; exact he0)
+      have h0 : decide (0 < e0.2.refs) = false := by simp [he0refs]
+      simp only [h0, Bool.toNat_false, Nat.add_zero] at this
+      rw [hi.nnew, this]
+  · exact hi
+
+/-- one hit of `removeAddrFromNew` -/
+theorem inv_removeNewOne {s : St} {b a : Nat} (hi : Inv s) (hm : (b, a) ∈ s.newB) : Inv (removeNewOne s b a) := by
+  rcases hi.newIdx _ hm with ⟨e0, he0, he0a⟩
+  simp only at he0a
+  have hcnt := fun x => cnt_remove_pair s.newB b a x hi.newNd hm
+  have hr0 := hi.refs e0 he0
+  have hc0 := hcnt a
+  simp only [↓reduceIte] at hc0
+  have hnt : e0.2.tried = false := by
+    cases h : e0.2.tried
+    · rfl
+    · have := hi.triedRefs e0 he0 h
+      rw [he0a] at hr0
+      omega
+  have hf : find s a = some e0.2 := mem_find hi (by rw [← he0a]; exact he0)
+  unfold removeNewOne
+  have hf' : find { s with newB := s.newB.filter (fun e => e != (b, a)) } a = some e0.2 := hf
+  simp only [hf']
+  have hsubN : ∀ p ∈ s.newB.filter (fun e => e != (b, a)), p ∈ s.newB := fun p hp => (List.mem_filter.1 hp).1
+  split
+  · rename_i hz
+    -- last reference: the address leaves the manager
+    have hzero : cnt (s.newB.filter (fun e => e != (b, a))) a = 0 := by rw [he0a] at hr0; omega
+    constructor
+    · exact keys_delKA a hi.keys
+    · exact hi.newNd.filter _
+    · intro e he
+      have hm' := mem_delKA.1 he
+      have := hcnt e.1
+      have hne : ¬ a = e.1 := fun e' => hm'.2 e'.symm
+      simp only [hne, ↓reduceIte, Nat.add_zero] at this
+      simp only
+      rw [this]; exact hi.refs e hm'.1
+    · intro p hp
+      rcases hi.newIdx p (hsubN p hp) with ⟨e, he, hea⟩
+      refine ⟨e, mem_delKA.2 ⟨he, ?_⟩, hea⟩
+      rw [hea]
+      intro epa
+      have : 0 < cnt (s.newB.filter (fun e => e != (b, a))) a := cnt_pos.2 ⟨p, hp, epa⟩
+      omega
+    · intro e he
+      exact hi.triedRefs e (mem_delKA.1 he).1
+    · intro e he
+      exact hi.untried e (mem_delKA.1 he).1
+    · exact hi.triedNd
+    · intro p hp
+      rcases hi.triedIdx p hp with ⟨e, he, h1, h2⟩
+      refine ⟨e, mem_delKA.2 ⟨he, ?_⟩, h1, h2⟩
+      intro ea
+      have := keys_unique hi.keys he he0 (ea.trans he0a.symm)
+      rw [this, hnt] at h2
+      cases h2
+    · intro e he hte
+      exact hi.idxTried e (mem_delKA.1 he).1 hte
+    · exact hi.tried
+    · simp only
+      have := countP_delKA (fun e => decide (0 < e.2.refs)) s.index a e0.2 hi.keys (by rw [← he0a]; exact he0)
+      have h1 : decide (0 < e0.2.refs) = true := by simp; omega
+      simp only [h1, Bool.toNat_true] at this
+      rw [hi.nnew]; omega
+  · rename_i hz
+    have hm0 : (a, e0.2) ∈ s.index := by rw [← he0a]; exact he0
+    constructor
+    · exact keys_of_map (keys_setKA _ _ _) hi.keys
+    · exact hi.newNd.filter _
+    · intro e he
+      simp only at he ⊢
+      rcases mem_setKA.1 he with ⟨h1, h2⟩ | ⟨rfl, _⟩
+      · have := hcnt e.1
+        have hne : ¬ a = e.1 := fun e' => h2 e'.symm
+        simp only [hne, ↓reduceIte, Nat.add_zero] at this
+        rw [this]; exact hi.refs e h1
+      · simp only; rw [he0a] at hr0; omega
+    · intro p hp
+      simp only at hp ⊢
+      rw [key_mem_setKA]
+      exact hi.newIdx p (hsubN p hp)
+    · intro e he hte
+      simp only at he
+      rcases mem_setKA.1 he with ⟨h1, _⟩ | ⟨rfl, _⟩
+      · exact hi.triedRefs e h1 hte
+      · simp [hnt] at hte
+    · intro e he hte
+      simp only at he
+      rcases mem_setKA.1 he with ⟨h1, _⟩ | ⟨rfl, _⟩
+      · exact hi.untried e h1 hte
+      · simp only; rw [he0a] at hr0; omega
+    · exact hi.triedNd
+    · intro p hp
+      rcases hi.triedIdx p hp with ⟨e, he, h1, h2⟩
+      refine ⟨e, mem_setKA.2 (Or.inl ⟨he, ?_⟩), h1, h2⟩
+      intro ea
+      have := keys_unique hi.keys he he0 (ea.trans he0a.symm)
+      rw [this, hnt] at h2
+      cases h2
+    · intro e he hte
+      simp only at he
+      rcases mem_setKA.1 he with ⟨h1, _⟩ | ⟨rfl, _⟩
+      · exact hi.idxTried e h1 hte
+      · simp [hnt] at hte
+    · exact hi.tried
+    · simp only
+      have := countP_setKA (fun e => decide (0 < e.2.refs)) s.index a e0.2 { e0.2 with refs := e0.2.refs - 1 } hi.keys hm0
+      have h1 : decide (0 < e0.2.refs) = true := by simp; rw [he0a] at hr0; omega
+      have h2 : decide (0 < e0.2.refs - 1) = true := by simp; rw [he0a] at hr0; omega
+      simp only [h1, h2, Bool.toNat_true] at this
+      rw [hi.nnew]; omega
+
+theorem newB_removeNewOne (s : St) (b a : Nat) : (removeNewOne s b a).newB = s.newB.filter (fun e => e != (b, a)) := by
+  unfold removeNewOne
+  simp only
+  split
+  · split <;> rfl
+  · rfl
+
+theorem inv_removeNew_fold (a : Nat) : ∀ (L : Pairs) (s : St), L.Nodup → (∀ p ∈ L, p ∈ s.newB ∧ p.2 = a) → Inv s →
+    Inv (L.foldl (fun s e => removeNewOne s e.1 a) s) := by
+  intro L
+  induction L with
+  | nil => intro s _ _ hi; exact hi
+  | cons x L ih =>
+    intro s hn hall hi
+    have hn' := List.nodup_cons.1 hn
+    have hx := hall x (List.mem_cons_self)
+    have hxm : (x.1, a) ∈ s.newB := by
+      have : x = (x.1, a) := by rw [← hx.2]
+      rw [← this]; exact hx.1
+    simp only [List.foldl_cons]
+    apply ih _ hn'.2 _ (inv_removeNewOne hi hxm)
+    intro p hp
+    have h1 := hall p (List.mem_cons_of_mem _ hp)
+    refine ⟨?_, h1.2⟩
+    rw [newB_removeNewOne]
+    refine List.mem_filter.2 ⟨h1.1, ?_⟩
+    have : p ≠ (x.1, a) := by
+      intro e
+      have : p = x := by rw [e, ← hx.2]
+      exact hn'.1 (this ▸ hp)
+    simpa using this
+
+theorem inv_removeNew {s : St} (a : Nat) (hi : Inv s) : Inv (removeNew s a) := by
+  unfold removeNew
+  apply inv_removeNew_fold a _ s (hi.newNd.filter _) _ hi
+  intro p hp
+  have := List.mem_filter.1 hp
+  exact ⟨this.1, by simpa using this.2⟩
+
+/-- `BanAddress` of today's code -/
+theorem inv_ban (c : Cfg) {s : St} (a : Nat) (hi : Inv s) : Inv (ban true c s a) := by
+  unfold ban
+  exact inv_removeNew a (inv_removeTried a (inv_congr hi rfl rfl rfl rfl rfl))
+
+theorem inv_step (c : Cfg) {s : St} (op : Op) (hi : Inv s) : Inv (step c s op) := by
+  cases op with
+  | add a b d => exact inv_add c a b d hi
+  | good a t => exact inv_good a t hi
+  | ban a => exact inv_ban c a hi
+  | clock dt => exact inv_congr hi rfl rfl rfl rfl rfl
+
+theorem inv_run (c : Cfg) : ∀ (ops : List Op) (s : St), Inv s → Inv (run c s ops) := by
+  intro ops
+  induction ops with
+  | nil => intro s h; exact h
+  | cons o os ih => intro s h; exact ih _ (inv_step c o h)
 
 end BHS.Proofs.AddrMgr
